@@ -99,6 +99,21 @@ theorem hasKey_iff_lookup {π : Type} (f : Fib κ π) (c : κ) : HasKey f c ↔ 
 theorem sorted_filter {π : Type} {f : Fib κ π} (hs : Sorted f) (P : κ × π → Bool) : Sorted (f.filter P) := by
   unfold Sorted at *; exact hs.filter _
 
+/-- the content lists only non-default values -/
+theorem content_ne_default {ν : Type} [DecidableEq ν] (dflt : ν) : ∀ (d : Nat) (t : Tree κ ν d),
+    ∀ pv ∈ content dflt d t, pv.2 ≠ dflt
+  | 0, v, pv, h => by
+    have h' : pv ∈ (if (show ν from v) = dflt then [] else [([], (show ν from v))]) := h
+    by_cases hv : (show ν from v) = dflt
+    · rw [if_pos hv] at h'; cases h'
+    · rw [if_neg hv] at h'
+      rw [List.mem_singleton.1 h']; exact hv
+  | d + 1, f, pv, h => by
+    rw [content_succ] at h
+    obtain ⟨e, _, hpv⟩ := List.mem_flatMap.1 h
+    obtain ⟨x, hx, rfl⟩ := List.mem_map.1 hpv
+    exact content_ne_default dflt d e.2 x hx
+
 /-! ### n-ary two-finger intersection -/
 
 /-- all operands' payloads at `c`, if every operand presents `c` -/
@@ -454,6 +469,72 @@ theorem rowsOK_lff (v : Nat) (parts : List (Cur κ)) (hp : Parts v parts) (hne :
     | some s =>
       obtain ⟨e1, e2⟩ := elems_eq_at v rs t hfw r.1 s hx
       rw [← e1, e2]; rfl
+
+/-! ### the filtered leader-follower rows are the two-finger rows -/
+
+theorem allLookup_all {π : Type} : ∀ (gs : List (Fib κ π)) (c : κ),
+    (allLookup gs c).isSome = true → ∀ g ∈ gs, (lookup g c).isSome = true
+  | [], _, _, g, hg => by cases hg
+  | g :: gs, c, h, x, hx => by
+    simp only [allLookup] at h
+    cases hg : lookup g c with
+    | none => rw [hg] at h; cases h
+    | some p =>
+      rw [hg] at h
+      simp only [Option.bind_some] at h
+      rcases List.mem_cons.1 hx with rfl | hx
+      · rw [hg]; rfl
+      · apply allLookup_all gs c _ x hx
+        cases ha : allLookup gs c with
+        | none => rw [ha] at h; cases h
+        | some ps => rfl
+
+/-- two-finger rows exist only where every participant presents the coordinate -/
+theorem tf_sound (v : Nat) (parts : List (Cur κ)) (hp : Parts v parts) (hne : parts ≠ []) (c : κ)
+    (hk : HasKey (coiter .tf parts) c) : ∀ p ∈ parts, (lookup p.elems c).isSome = true := by
+  cases parts with
+  | nil => exact absurd rfl hne
+  | cons p ps =>
+    obtain ⟨h1, h2⟩ := interAll_spec p.elems (ps.map Cur.elems) (by
+      have := parts_sorted v (p :: ps) hp
+      simpa using this)
+    have hco : coiter .tf (p :: ps) = interAll (p.elems :: ps.map Cur.elems) := rfl
+    rw [hco, hasKey_iff_lookup, h2 c] at hk
+    intro q hq
+    exact allLookup_all _ c hk q.elems (by
+      have : q.elems ∈ (p :: ps).map Cur.elems := List.mem_map.2 ⟨q, hq, rfl⟩
+      simpa using this)
+
+/-- … and so do the filtered leader-follower rows -/
+theorem lff_sound (v : Nat) (parts : List (Cur κ)) (hp : Parts v parts) (hne : parts ≠ []) (c : κ)
+    (hk : HasKey (coiter .lff parts) c) : ∀ p ∈ parts, (lookup p.elems c).isSome = true := by
+  have hlf := rowsOK_lf v parts hp hne
+  have hco : coiter .lff parts = (coiter .lf parts).filter (fun r => r.2.tail.all (fun c => !c.isEmpty)) := rfl
+  rw [hco] at hk
+  obtain ⟨r, hr, rfl⟩ := hk
+  obtain ⟨hr1, hr2⟩ := List.mem_filter.1 hr
+  cases parts with
+  | nil => exact absurd rfl hne
+  | cons p fs =>
+    intro q hq
+    rcases List.mem_cons.1 hq with rfl | hq
+    · rw [← hasKey_iff_lookup]
+      exact hlf.keys r hr1 q rfl
+    · rw [hlf.sub r hr1] at hr2
+      simp only [List.map_cons, List.tail_cons, List.all_map, List.all_eq_true, Function.comp] at hr2
+      have hqe := hr2 q hq
+      obtain ⟨hqv, hqw⟩ := hp q (List.mem_cons_of_mem _ hq)
+      obtain ⟨rs, t, rfl⟩ := isPart_iff.1 hqv
+      rw [elems_of_at_nonempty v rs t hqw r.1 (by simpa using hqe)]
+      rfl
+
+theorem lff_eq_tf (v : Nat) (parts : List (Cur κ)) (hp : Parts v parts) (hne : parts ≠ []) :
+    coiter .lff parts = coiter .tf parts := by
+  have h1 := rowsOK_lff v parts hp hne
+  have h2 := rowsOK_tf v parts hp hne
+  apply sorted_ext_of_fn (F := fun c => parts.map (Cur.at c)) _ _ h1.sorted h2.sorted h1.sub h2.sub
+  intro c
+  exact ⟨fun h => h2.complete c (lff_sound v parts hp hne c h), fun h => h1.complete c (tf_sound v parts hp hne c h)⟩
 
 theorem rowsOK (style : Style) (v : Nat) (parts : List (Cur κ)) (hp : Parts v parts) (hne : parts ≠ []) :
     RowsOK parts (coiter style parts) := by
